@@ -125,6 +125,9 @@ def run(tier):
     ok = bool(dup_err) and all(ins_d(r) == 1 for r in dup_err) and bool(dup_ok) and all(ins_d(r) == 0 for r in dup_ok)
     rep.ob("C10.duplicate-label", ok, "binding a label that already exists (insert returned Some) fails the build; a new one continues" if ok else
            "the result of the label insert is not checked: duplicate labels are accepted (Err paths %d, continue paths %d)" % (len(dup_err), len(dup_ok)))
+    # every kind of line that can carry a label yields its Label item, before anything else of the line
+    import lineitems
+    lineitems.check(P, rep, "C10.label|line", want_labels=True, want_instruction=False)
     # label insert really targets the labels map
     okl = all(any(e[0] == 'call' and e[1].endswith("::insert") and "labels" in e[2][0] for e in r.events) for r in labs) and bool(labs)
     rep.ob("C10.label|map", okl, "labels are bound in the labels table" if okl else "label binding does not go to the labels table")
